@@ -64,6 +64,19 @@ class Run:
     def note(self, s):
         self.notes.append(s)
 
+    def paths(self, rid, key, where, examined, skipped_infeasible=0, skipped_undecided=0):
+        """Accounting for a rule that judges a function path by path.  `examined` paths were judged; the others were left
+        out because the path-feasibility helper called them infeasible, or because the helper could not tell which way
+        a test went on them.  A rule that examined no path at all has decided nothing: fail closed.  The three numbers are
+        written to the evidence so that a drop in `examined` (a helper that starts to discard real paths) is visible."""
+        pc = self.counters.setdefault("path_accounting", {})
+        pc["%s/%s" % (rid, key)] = {"examined": examined, "skipped_infeasible": skipped_infeasible, "skipped_undecided": skipped_undecided}
+        self.counters["paths_or_states"] = self.counters.get("paths_or_states", 0) + examined
+        if examined == 0:
+            self.fail(rid, "%s/no-path-examined" % key, where, "the path-by-path rule examined no feasible path of this function (%d discarded as infeasible, %d undecided): nothing was decided" % (skipped_infeasible, skipped_undecided), counts_as_instance=False)
+            return False
+        return True
+
     # ---- verdict ----
     def finish(self):
         known = [k for k in load_known() if k.get("property") == self.pid]
@@ -117,6 +130,9 @@ class Run:
             "trusted_base": self.assumptions,
             "suppressed": [v["key"] for v in supp],
         }
+        if self.counters.get("path_accounting"):
+            # per path-by-path rule instance: paths judged / discarded as infeasible / left undecided by the helpers
+            cov["path_accounting"] = self.counters["path_accounting"]
         ev = {
             "property_id": self.pid,
             "tier": self.tier,
